@@ -20,6 +20,7 @@
 // script = actions joined by ',':
 //
 //	p<c>          push to client c                 P<c>x<n>      n pushes to client c
+//	p<c>b<bytes>  push with a payload padded by <bytes> rb<bytes>  response padded by <bytes>
 //	m             one PushMessageByIds to all      r             complete the request
 //	s<ms>         time.Sleep on the service        t<ms>c<c>x<n> timer after ms: n pushes to c
 //	w<c>x<n>      worker goroutine: n posted pushes W<c>x<n>     the same, the last post completes the request
@@ -80,6 +81,21 @@ type Tag struct {
 	C int    `json:"c"` // target client (index in the case)
 	N int    `json:"n"` // per (s,t,c) counter
 	K string `json:"k"` // p | r
+	P string `json:"z,omitempty"` // padding: makes the packet as large as the script asks (ids stay in the payload head)
+}
+
+// pad returns n pseudo-random printable bytes (deterministic in the ids, incompressible enough).
+func pad(n int, seed int) string {
+	if n <= 0 {
+		return ""
+	}
+	b := make([]byte, n)
+	x := uint32(seed)*2654435761 + 12345
+	for i := range b {
+		x = x*1664525 + 1013904223
+		b[i] = "abcdefghijklmnopqrstuvwxyzABCDEFGHIJKLMNOPQRSTUVWXYZ0123456789-_"[x>>26]
+	}
+	return string(b)
 }
 
 // Arg is the payload of a request.
@@ -147,8 +163,11 @@ func issue(ns *service.NodeService, t Tag, cb apientry.HandlerCBFunc) {
 }
 
 // direct: code on the service goroutine issues an item now.
-func direct(ns *service.NodeService, svc, cl int, k string, cb apientry.HandlerCBFunc) {
+func direct(ns *service.NodeService, svc, cl int, k string, cb apientry.HandlerCBFunc, size ...int) {
 	t := Tag{S: svc, T: 0, C: cl, N: cs.next(svc, 0, cl), K: k}
+	if len(size) > 0 && size[0] >= 8 {
+		t.P = pad(size[0], t.N*31+cl)
+	}
 	node.Record(ns.Name, fmt.Sprintf("d%d.%d%s", cl, t.N, k))
 	issue(ns, t, cb)
 }
@@ -185,7 +204,8 @@ func interpret(ns *service.NodeService, svc int, script string, reqClient int, c
 		}
 		switch a[0] {
 		case 'p':
-			direct(ns, svc, atoi(a[1:]), "p", nil)
+			cl, size := pair(a[1:], 'b')
+			direct(ns, svc, cl, "p", nil, size)
 		case 'P':
 			cl, n := pair(a[1:], 'x')
 			for i := 0; i < n; i++ {
@@ -201,7 +221,8 @@ func interpret(ns *service.NodeService, svc int, script string, reqClient int, c
 			}
 			app.PushMessageByIds(ns, "gate-1", nets, "t", &Multi{S: svc, N: tags})
 		case 'r':
-			direct(ns, svc, reqClient, "r", cb)
+			_, size := pair(a[1:], 'b')
+			direct(ns, svc, reqClient, "r", cb, size)
 		case 's':
 			time.Sleep(time.Duration(atoi(a[1:])) * time.Millisecond)
 		case 't':
